@@ -7,11 +7,12 @@
     property: event type and context not blank; the type is defined in [reg]; the payload
     is a JSON object; every entry's key is a field of the schema and its value has the
     field's declared type ([HasType]); every field that is not [Optional] is present.
-    [FT] is the set of float bit patterns that count as a time ([CodeFloat]: what the code
-    accepts; [FloatInRange]: floor representable as i64 seconds, the property's reading).
+    [FT] is the set of float bit patterns that count as a time; the theorems use
+    [FloatInRange] (floor representable as i64 seconds), the property's reading.
 
     HOW THE CODE READS THE PROPERTY'S WORDS (every place where [Conforms] had to choose;
-    1-9 are readings, 10-12 contradict the statement and are findings):
+    1-9 are readings; 10-12 were contradictions of the statement on the pinned tree and have
+    been REPAIRED in /repo - the theorems below now hold without any excluded class):
 
      1. "context id is non-empty"  -> not BLANK: [context_id.trim().is_empty()] rejects ids made
         only of Unicode White_Space characters (" ", "\t", U+00A0, U+3000 ...).  Same test on
@@ -30,7 +31,7 @@
         field accepts a time of day and is not truncated to midnight): a string that C16's
         parser accepts after Unicode trimming (RFC 3339, YYYY-MM-DD, or a decimal integer
         string of magnitude < 10^19), or an integer literal of magnitude < 10^19
-        (so 10^19 .. 2^64-1 are rejected), or - see 10 - any float.  Booleans, null, arrays,
+        (so 10^19 .. 2^64-1 are rejected), or a float whose floor fits i64 (see 10).  Booleans, null, arrays,
         objects are rejected.
      8. "flat": not a separate test - no declared type admits an array or an object, so
         conformance implies flatness ([C06_conforms_flat_exact_keys]).
@@ -38,17 +39,19 @@
         required STRING field ("foo", "foo | null", " int", "null"); "int | float" declares int
         (first non-null part).  Enum variants are taken as given (duplicates, empty strings).
         These are properties of [schema_of_cmd], which the theorems quantify over.
-    10. FINDING FloatTimeSaturates: a float in a time-typed slot is accepted whatever its size;
-        [f.floor() as i64] saturates, so 1e300 is stored as 9223372036854775807.  The property
-        calls out-of-range times non-conforming.  [C06_float_time_refuted] +
-        [C06_accept_iff_strict_outside_known] (strict reading [FloatInRange]).
-    11. FINDING BraceInString: on the command line the STORE grammar delimits the payload by
-        counting braces without regard to JSON strings, so a conforming payload with an
-        unbalanced '{' or '}' inside a key or string value is answered with a parse error.
-    12. FINDING PlusExponent: every command line is first tokenized, and the tokenizer rejects
-        '+' outside a string literal, so a conforming payload with a number written like 1e+16
-        (what Python's json.dumps emits) is answered with a parse error.
-        [C06_text_refuted] + [C06_text_accept_iff_conforms_outside_known].
+    10. REPAIRED (8f02d15) FloatTimeSaturates: a float in a time-typed slot used to be accepted
+        whatever its size ([f.floor() as i64] saturated, 1e300 was stored as 9223372036854775807).
+        [normalize_json_value] now rejects floats outside [-2^63, 2^63); the translator reads the
+        guard ([time_float_range_checked = true]) and [C06_accept_iff_conforms] is stated with the
+        property's reading [FloatInRange] for every STORE.
+    11. REPAIRED (fced25a) BraceInString: the STORE grammar used to delimit the payload by counting
+        braces without regard to JSON strings; it now skips string literals
+        ([store_brace_scan_ignores_strings = false]).
+    12. REPAIRED (b3737c8) PlusExponent: the tokenizer that pre-validates every command line used to
+        reject '+' (numbers written like 1e+16); '+' is now a symbol ([tokenizer_rejects_plus =
+        false]).  With 11 and 12 the command line is transparent: [C06_text_front_transparent],
+        [C06_text_accept_iff_conforms].  [C06_former_witnesses_repaired] keeps the three old
+        witnesses, now on the right side.
 
     Hypotheses: [wf_reg] / [wf_payload] say that registry, schemas and payload object are
     maps (unique keys), which [HashMap] and [serde_json::Map] guarantee; every registry built
@@ -57,14 +60,13 @@ From Coq Require Import ZArith NArith List.
 From Snel Require Import Base.Bytes Gen.Params Model.Json Model.Schema Model.SchemaReg Model.Validate Proofs.ValidateProofs.
 Import ListNotations.
 
-(** The handler accepts a STORE iff it conforms.  [CodeFloat] is the code's reading of "a float
-    that is a time", regenerated from src/shared/time.rs: on the pinned tree there is no range
-    check before [f.floor() as i64], [time_float_range_checked = false], and [CodeFloat b]
-    holds of EVERY float (finding 10). *)
+(** The handler accepts a STORE iff it conforms - under the property's own reading of times
+    ([FloatInRange]: a float counts as a time only when its floor is an i64 second count), for
+    EVERY registry and payload with unique keys, no excluded class. *)
 Theorem C06_accept_iff_conforms : forall reg cmd,
   wf_reg reg -> wf_payload (sc_payload cmd) ->
-  (store_ok reg cmd = true <-> Conforms CodeFloat reg cmd).
-Proof. exact store_ok_iff_conforms. Qed.
+  (store_ok reg cmd = true <-> Conforms FloatInRange reg cmd).
+Proof. exact accept_iff_conforms_strict. Qed.
 Print Assumptions C06_accept_iff_conforms.
 
 (** A conforming STORE carries a flat object whose keys are fields and cover the required ones. *)
@@ -142,39 +144,28 @@ Theorem C06_reachable_wf : forall reg, Reachable reg -> wf_reg reg.
 Proof. exact reachable_wf. Qed.
 Print Assumptions C06_reachable_wf.
 
-(** Finding 10: under the property's reading of times ([FloatInRange]) the equivalence is
-    false ... *)
-Theorem C06_float_time_refuted :
-  exists reg cmd, Reachable reg /\ wf_payload (sc_payload cmd) /\
-    store_ok reg cmd = true /\ ~ Conforms FloatInRange reg cmd.
-Proof. exact float_time_refuted. Qed.
-Print Assumptions C06_float_time_refuted.
+(** The command line: a line whose payload is a JSON object reaches the handler unchanged,
+    whatever braces its strings carry and however its numbers are spelled ... *)
+Theorem C06_text_front_transparent : forall reg t obj,
+  sc_payload (tx_cmd t) = JObj obj -> store_text_ok reg t = store_ok reg (tx_cmd t).
+Proof. exact text_front_transparent. Qed.
+Print Assumptions C06_text_front_transparent.
 
-(** ... and holds for every STORE outside the class [FloatTimeSaturates]. *)
-Theorem C06_accept_iff_strict_outside_known : forall reg cmd,
-  wf_reg reg -> wf_payload (sc_payload cmd) ->
-  ~ FloatTimeSaturates reg cmd ->
-  (store_ok reg cmd = true <-> Conforms FloatInRange reg cmd).
-Proof. exact accept_iff_strict_outside_known. Qed.
-Print Assumptions C06_accept_iff_strict_outside_known.
-
-(** Findings 11 and 12: on the command line, strictly conforming STOREs are rejected ... *)
-Theorem C06_text_refuted :
-  exists reg t1 t2, Reachable reg /\
-    (wf_payload (sc_payload (tx_cmd t1)) /\ Conforms FloatInRange reg (tx_cmd t1) /\
-     ~ PlusExponent t1 /\ store_text_ok reg t1 = false) /\
-    (wf_payload (sc_payload (tx_cmd t2)) /\ Conforms FloatInRange reg (tx_cmd t2) /\
-     ~ BraceInString t2 /\ store_text_ok reg t2 = false).
-Proof. exact text_refuted. Qed.
-Print Assumptions C06_text_refuted.
-
-(** ... and outside the two classes the command line accepts exactly the conforming STOREs. *)
-Theorem C06_text_accept_iff_conforms_outside_known : forall reg t,
+(** ... hence the command line accepts exactly the conforming STOREs, with no excluded class. *)
+Theorem C06_text_accept_iff_conforms : forall reg t,
   wf_reg reg -> wf_payload (sc_payload (tx_cmd t)) ->
-  ~ BraceInString t -> ~ PlusExponent t ->
-  (store_text_ok reg t = true <-> Conforms CodeFloat reg (tx_cmd t)).
-Proof. exact text_accept_iff_conforms_outside_known. Qed.
-Print Assumptions C06_text_accept_iff_conforms_outside_known.
+  (store_text_ok reg t = true <-> Conforms FloatInRange reg (tx_cmd t)).
+Proof. exact text_accept_iff_conforms. Qed.
+Print Assumptions C06_text_accept_iff_conforms.
+
+(** The witnesses of the three former findings: {"ts":1e300} is rejected; {"s":"}","f":1} and
+    {"s":"x","f":1e+16} are accepted on the command line. *)
+Theorem C06_former_witnesses_repaired :
+  store_ok w_reg_time w_cmd_1e300 = false /\
+  store_text_ok w_reg_text w_text_brace = true /\
+  store_text_ok w_reg_text w_text_plus = true.
+Proof. exact former_witnesses_repaired. Qed.
+Print Assumptions C06_former_witnesses_repaired.
 
 (** A command line that is rejected - by the parser front or by the handler - leaves no trace. *)
 Theorem C06_text_reject_no_trace : forall st t,
